@@ -1024,3 +1024,13 @@ func (r *Report) Fuel(s FuelSpec) {
 	}
 	r.OK(key, rule, r.P.Pos(s.Fn.Pos()), fmt.Sprintf("%d incrementing call(s) on the cycle", inc), true)
 }
+
+// ReturnsConstBoolVal: returns whose idx-th result is the given boolean constant.
+func ReturnsConstBoolVal(idx int, want bool) Effect {
+	return Effect{Desc: fmt.Sprintf("return of the constant %v", want), Sites: func(g *gateRun) []effSite {
+		return g.returnSites(func(sig *types.Signature) int { return idx }, func(v ssa.Value, at *ssa.BasicBlock, _ *Edge) bool {
+			b, ok := ConstBool(v)
+			return ok && b == want
+		})
+	}}
+}
